@@ -152,6 +152,19 @@ def main(ctx):
             if len(ctx.violations) >= 6:
                 break
     select_tie(ctx)
+    # memory histories whose addresses collide in their low bits (hash buckets of the C backend), rewriting older entries
+    from checks import c08
+    for k in range(ctx.n(12, 200)):
+        aw = ctx.rng.choice([9, 10, 12, 16, 33])
+        dw = ctx.rng.choice([7, 8, 64, 70])
+        nrd, nwr = ctx.rng.randint(1, 2), ctx.rng.randint(1, 2)
+        hsteps = c08.history(ctx.rng, aw, dw, nrd, nwr, 16)
+        # every fourth history: a default_value wider than the memory (unwritten words read as its low bits)
+        dflt = (ctx.rng.getrandbits(dw + 3) | (1 << dw)) if k % 4 == 2 else 0
+        c08.check_history(ctx, aw, dw, nrd, nwr, hsteps, {}, 'c02-hist#%d' % k, regports=(k % 3 == 1 and not dflt),
+                          sims=(pyrtl.FastSimulation, pyrtl.CompiledSimulation), with_passes=False, dflt=dflt)
+        ctx.evaluations += 1
+    ctx.evaluations += c08.repeated_use(ctx, sims=(pyrtl.FastSimulation, pyrtl.CompiledSimulation))
     for name in agree:
         ctx.oblige('oracle:%s=Spec' % name, agree[name] == total[name], '%d/%d designs agree' % (agree[name], total[name]))
     return conclude(ctx, rule='random designs as in C01 with widths biased to 63/64/65/127/128/129/130 so operands of '
